@@ -7,6 +7,9 @@
   the model sets to `len(data)`.
 -/
 import OrbProofs.C05Lemmas
+import OrbProofs.C05Elems
+import OrbProofs.C05AllocByte
+import OrbProofs.C05AllocLower
 
 namespace Orb.WKB
 
@@ -30,15 +33,101 @@ theorem wkbScan_total (bnd : BoundFn) (d : Dest) (bs : Bytes) : (wkbScan bnd d b
   wkbScan_total' bnd d bs
 
 /-- Whatever element counts the input claims, a successfully decoded value is no bigger than the
-    input: at least 16 bytes were consumed per decoded point (so the memory held by the result is
-    at most proportional to the input length). -/
+    input: at least 16 bytes were consumed per decoded point AND at least 4 bytes per ring, line,
+    polygon and collection member (`memberCount`: every slice element that is not a point, at every
+    depth) — empty rings, empty lines and empty collection members included.  So the memory held by
+    the result (16 bytes per point, a 24-byte slice header or 16-byte interface per other element, and
+    what `append` over-allocates while growing them) is at most proportional to the input length. -/
+theorem unmarshal_elems_le (bs : Bytes) (g : G) (s : Nat) (h : unmarshal bs = .ok (g, s)) :
+    16 * pointCount g + 4 * memberCount g ≤ bs.length := unmarshal_elems_le' bs g s h
+
+theorem decode_elems_le (bs : Bytes) (g : G) (s : Nat) (h : decode bs = .ok (g, s)) :
+    16 * pointCount g + 4 * memberCount g ≤ bs.length := decode_elems_le' bs g s h
+
+/-- the points-only corollaries (the statements this file had before) -/
 theorem unmarshal_size_le (bs : Bytes) (g : G) (s : Nat) (h : unmarshal bs = .ok (g, s)) :
     16 * pointCount g ≤ bs.length := unmarshal_size_le' bs g s h
 
 theorem decode_size_le (bs : Bytes) (g : G) (s : Nat) (h : decode bs = .ok (g, s)) :
     16 * pointCount g ≤ bs.length := decode_size_le' bs g s h
 
-/-- Every capacity handed to `make` by the decoders is capped by the regenerated constants. -/
+/-! ### allocation: the capacities requested by the decoders' own `make` calls
+
+  `decodeAlloc`, `unmarshalAlloc`, `scanDestAlloc` (Orb/WKB.lean, next to the decoders they mirror) add up
+  the byte size of every `make(T, 0, min(claimed count, cap))` the Go code executes during one call —
+  with `MaxPointsAlloc` / `MaxMultiAlloc` (regenerated into `Generated.Params`) exactly where the Go code
+  caps — for a decode that SUCCEEDS and for one that FAILS (a failing decode has run the `make` of every
+  container that was open when it failed, each possibly at its cap).  Removing a cap from one of the
+  accounting functions (`allocCap num cap` ↦ `num`) where the `make` precedes the length check makes the
+  theorems below unprovable (the count is an arbitrary 32-bit number).  The correspondence run compares the
+  measured TotalAlloc of the three kinds of entry point with these figures. -/
+
+/-- Stream decoder, EVERY byte string, every outcome: at most `allocPerByte` (200) bytes per input byte
+    plus `allocFixed` = 164808 = one open MultiPolygon + Polygon + ring, each at its cap, + the 8-byte
+    buffer.  (The fixed part is attained: see `decodeAlloc_tight`.) -/
+theorem decode_alloc_le (bs : Bytes) : decodeAlloc bs ≤ allocPerByte * bs.length + allocFixed :=
+  decodeAlloc_le' bs
+
+/-- A succeeding stream decode needs no fixed part: every capped `make` was paid for by consumed input. -/
+theorem decode_alloc_ok_le (bs : Bytes) (g : G) (s : Nat) (h : decode bs = .ok (g, s)) :
+    decodeAlloc bs ≤ allocPerByte * bs.length := decodeAlloc_ok_le' bs g s h
+
+/-- Byte-slice decoder: the same bound for every input whose top-level type is not one of the three
+    multis (points, line strings, polygons, collections — which go through the stream decoder —,
+    unknown types, unreadable headers). -/
+theorem unmarshal_alloc_le_of_not_multi (bs : Bytes)
+    (h : ∀ o typ srid gd, unmarshalBOT bs = .ok (o, typ, srid, gd) →
+      typ ≠ Generated.Params.wkb_multiPointType ∧ typ ≠ Generated.Params.wkb_multiLineStringType ∧
+      typ ≠ Generated.Params.wkb_multiPolygonType) :
+    unmarshalAlloc bs ≤ allocPerByte * bs.length + allocFixed := unmarshalAlloc_le_of_not_multi' bs h
+
+/-- The clause of the property for the byte-slice decoder, as it should read. -/
+def unmarshal_alloc_linear_full : Prop :=
+  ∀ bs : Bytes, unmarshalAlloc bs ≤ allocPerByte * bs.length + allocFixed
+
+/-- It is FALSE (recorded finding C05-wkb-nested-multi-quadratic): `unmarshalMultiLineString` /
+    `unmarshalMultiPolygon` / `unmarshalMultiPoint` scan each member with `ScanLineString` / … which accept a
+    nested one-member multi (to any depth, one `make` per level), and then advance by a stride re-derived
+    from the decoded member, not by what the scan looked at. -/
+theorem unmarshal_alloc_linear_full_false : ¬ unmarshal_alloc_linear_full := unmarshalAlloc_not_linear'
+
+/-- … and no other linear bound whose constants fit the format's 32-bit counts holds either. -/
+theorem unmarshal_alloc_exceeds (c K : Nat) (h : c + K + 3 < 2 ^ 32) :
+    ∃ bs : Bytes, c * bs.length + K < unmarshalAlloc bs := unmarshalAlloc_exceeds' c K h
+
+/-- The witness family: a MultiLineString claiming k+1 members followed by k nested one-member
+    MultiLineString headers and one empty line string (9k+18 bytes).  The decode SUCCEEDS … -/
+theorem nested_unmarshal_ok (k : Nat) (hk : k + 1 < 2 ^ 32) :
+    unmarshal (nestedMultiInput Generated.Params.wkb_multiLineStringType Generated.Params.wkb_lineStringType k)
+      = .ok (.multiLineString (List.replicate (k + 1) []), 0) := nested_unmarshal_ok' k hk
+
+/-- … and requests exactly this much: 12·k·(k+1) bytes beyond the outer `make`. -/
+theorem nested_unmarshal_alloc (k : Nat) (hk : k + 1 < 2 ^ 32) :
+    unmarshalAlloc (nestedMultiInput Generated.Params.wkb_multiLineStringType Generated.Params.wkb_lineStringType k)
+      = szSlice * allocCap (k + 1) Generated.Params.wkb_MaxMultiAlloc + 12 * (k * (k + 1)) :=
+  nested_unmarshalAlloc' k hk
+
+theorem nested_input_length (t leaf k : Nat) : (nestedMultiInput t leaf k).length = 9 * k + 18 :=
+  nestedMultiInput_length' t leaf k
+
+/-- What does hold for EVERY input of the byte-slice decoder: a quadratic bound … -/
+theorem unmarshal_alloc_quadratic (bs : Bytes) :
+    unmarshalAlloc bs ≤ bs.length * bs.length + allocQuadLin * bs.length + allocFixed :=
+  unmarshalAlloc_quadratic' bs
+
+/-- … also for `wkbcommon.Scan` into each of the ten destinations (after the hex framing is removed). -/
+theorem scanDest_alloc_quadratic (d : Dest) (bs : Bytes) :
+    scanDestAlloc d bs ≤ bs.length * bs.length + allocQuadLin * bs.length + allocFixed :=
+  scanDestAlloc_quadratic' d bs
+
+/-- The fixed part of the bound is attained: a 22-byte stream (MultiPolygon, Polygon and ring, each
+    claiming 2^32-1 elements) fails with `EOF` after requesting exactly `allocFixed` bytes. -/
+theorem decodeAlloc_tight :
+    decodeAlloc [1, 6,0,0,0, 255,255,255,255, 1, 3,0,0,0, 255,255,255,255, 255,255,255,255] = allocFixed ∧
+    decode [1, 6,0,0,0, 255,255,255,255, 1, 3,0,0,0, 255,255,255,255, 255,255,255,255] = .err .eof :=
+  ⟨by decide, rfl⟩
+
+/-- The capping primitive (helper; the statements about the capacities are the ones above). -/
 theorem allocCap_le (num cap : Nat) : allocCap num cap ≤ cap ∧ allocCap num cap ≤ num := allocCap_le' num cap
 
 /-- When a value is returned, re-encoding it and decoding again is stable (from C01). -/
